@@ -63,6 +63,8 @@ type WireSpec struct {
 	Level     string
 	Rule      string
 	Assume    []string
+	// ForceOpts generates every package of this part under these options
+	ForceOpts []string
 	// CaseFilter drops cases before execution (nil keeps all)
 	CaseFilter func(s *wireSchema, c *wireCase) bool
 	// Nontrivial says whether a case counts as non-trivial for the evidence
@@ -237,6 +239,10 @@ func runWirePart(c *Ctx, work string, sp *WireSpec) (Coverage, int, error) {
 	plans := map[string]*genrun.Plan{}
 	var planList []*genrun.Plan
 	for _, cs := range run.cases {
+		if sp.ForceOpts != nil {
+			cs.Opts = sp.ForceOpts
+			cs.Mask = 99
+		}
 		cs.Si = bySid[cs.Sid] + 1
 		cs.Pid = fmt.Sprintf("p%dm%d", cs.Sid, cs.Mask)
 		if plans[cs.Pid] == nil {
